@@ -65,23 +65,26 @@ Definition C06_decode_agrees (must : bool) (raw go : list N) : bool :=
    check (exit 2), never as a violation. *)
 Inductive c06_case :=
 | CRenders (v : view) (rs : list c06_render) (self : C06_selfcheck v rs = true)
-| CDecode (must : bool) (raw go : list N) (self : C06_decode_agrees must raw go = true).
+| CDecode (must : bool) (raw go : list N) (self : C06_decode_agrees must raw go = true)
+| CBoth (a b : c06_case).   (* two tables that share row objects, both rendered *)
 
 Definition C06_render_code (v : view) (r : c06_render) : N :=
   let x := r_in v r in
   code (res_eqb obs_eqb (html_exec x) (r_obs r)) (C06_ok x (r_obs r)).
 
-Definition C06_case (c : c06_case) : N :=
+Fixpoint C06_case (c : c06_case) : N :=
   match c with
   | CRenders v rs _ => fold_left N.lor (map (C06_render_code v) rs) 0%N
   | CDecode _ _ _ _ => 0%N
+  | CBoth a b => N.lor (C06_case a) (C06_case b)
   end.
 
 (* text-only cell *)
 Definition T (s : list N) : vcell := mkVCell s (match s with [] => true | _ => false end) None 0 0 false.
 
-Definition C06_model (c : c06_case) : list (res (list N * list nat)) :=
+Fixpoint C06_model (c : c06_case) : list (res (list N * list nat)) :=
   match c with
   | CRenders v rs _ => map (fun r => html_exec (r_in v r)) rs
   | CDecode _ _ _ _ => []
+  | CBoth a b => C06_model a ++ C06_model b
   end.
